@@ -110,9 +110,30 @@ def dispatch_branches(fl, evparam):
     return out
 
 
+def process_event_by_type(repo):
+    """Simulator._process_event as one arm per event type.  When the function is not already written as `if type == A .. elif type == B
+    ..` with exactly the types the event classes produce, it is case-split on event.event_type by partial evaluation (sa/pe.py): guard
+    clauses, a shared tail, a membership test up front all become the chain the rules read; an event type the code does not handle then
+    shows as an arm that does nothing (and fails the per-arm rules), never as a missing arm."""
+    import copy as _c
+    pe = repo.fn("Simulator._process_event")
+    lits = event_type_literals(repo)
+    br = dispatch_branches(flow_of(pe), pe.params[1])
+    if set(br) == set(lits.values()):
+        return pe, False
+    from ..pe import case_split
+    subj = ast.Attribute(value=ast.Name(id=pe.params[1], ctx=ast.Load()), attr="event_type", ctx=ast.Load())
+    node = case_split(repo, pe, subj, sorted(set(lits.values())))
+    if node is None:
+        return pe, False
+    pe2 = _c.copy(pe)
+    pe2.node = node
+    return pe2, True
+
+
 def rule_dispatch(ck, rid="C01.R3"):
     repo = ck.repo
-    pe = repo.fn("Simulator._process_event")
+    pe, split = process_event_by_type(repo)
     fl = flow_of(pe)
     evp = pe.params[1]
     br = dispatch_branches(fl, evp)
